@@ -52,6 +52,49 @@ impl Decode for Led {
 		}
 	}
 }
+thread_local! {
+	static ZLIVE: RefCell<Vec<u64>> = RefCell::new(Vec::with_capacity(1 << 12));
+}
+/// zero-sized instrumented element (a token: no memory, but a destructor): it cannot carry its id, so live ids are
+/// kept on a stack and a drop releases the most recent one - a drop with nothing live is logged as id 0
+pub struct LedZ;
+impl LedZ {
+	fn new() -> Self {
+		let id = NEXT.with(|n| { let v = n.get(); n.set(v + 1); v });
+		ZLIVE.with(|z| z.borrow_mut().push(id));
+		EV.with(|e| e.borrow_mut().push((0, id)));
+		LedZ
+	}
+}
+impl Drop for LedZ {
+	fn drop(&mut self) {
+		let id = ZLIVE.with(|z| z.borrow_mut().pop()).unwrap_or(0);
+		EV.with(|e| e.borrow_mut().push((1, id)));
+	}
+}
+impl Encode for LedZ {
+	fn encode_to<W: Output + ?Sized>(&self, dest: &mut W) { dest.push_byte(1) }
+}
+impl Decode for LedZ {
+	fn decode<I: Input>(input: &mut I) -> Result<Self, Error> {
+		let b = input.read_byte()?;
+		match b {
+			200 => Err("malformed element".into()),
+			201 => panic!("element decoder panics"),
+			202 => { input.on_before_alloc_mem(usize::MAX / 2)?; Ok(LedZ::new()) },
+			_ => Ok(LedZ::new()),
+		}
+	}
+}
+/// an instrumented element of more than 256 bytes (item-size dependent paths of the sequence decoders)
+pub struct LedBig { pub led: Led, pub pad: [u8; 300] }
+impl Encode for LedBig {
+	fn encode_to<W: Output + ?Sized>(&self, dest: &mut W) { self.led.encode_to(dest) }
+}
+impl Decode for LedBig {
+	fn decode<I: Input>(input: &mut I) -> Result<Self, Error> { Ok(LedBig { led: Led::decode(input)?, pad: [0x5a; 300] }) }
+}
+
 /// a Led that can be defaulted (skipped fields are filled with Default)
 pub struct LedDefault(pub Led);
 impl Default for LedDefault {
@@ -113,6 +156,8 @@ fn elems(n: usize, f: i64, kind: &str, per_elem_prefix: Option<&dyn Fn(usize) ->
 
 fn run<T: Decode>(ctx: &mut Ctx, shape: &str, n: usize, f: i64, kind: &str, inp: Vec<u8>, total: usize) {
 	EV.with(|e| e.borrow_mut().clear());
+	// (the recorder's own buffers exist before the allocator ledger starts)
+	ZLIVE.with(|z| z.borrow_mut().clear());
 	let mut s = &inp[..];
 	crate::ledger::begin();
 	let r = guarded(|| {
@@ -151,6 +196,14 @@ macro_rules! arr_shapes {
 					"boxarray" => run::<Box<[Led; $N]>>($ctx, "boxarray", $N, $f, $kind, elems($N, $f, $kind, None), $N),
 					"rcarray" => run::<Rc<[Led; $N]>>($ctx, "rcarray", $N, $f, $kind, elems($N, $f, $kind, None), $N),
 					"arrayofbox" => run::<[Box<Led>; $N]>($ctx, "arrayofbox", $N, $f, $kind, elems($N, $f, $kind, None), $N),
+					"arrayz" => run::<[LedZ; $N]>($ctx, "arrayz", $N, $f, $kind, elems($N, $f, $kind, None), $N),
+					"boxarrayz" => run::<Box<[LedZ; $N]>>($ctx, "boxarrayz", $N, $f, $kind, elems($N, $f, $kind, None), $N),
+					"arraybig" => run::<[LedBig; $N]>($ctx, "arraybig", $N, $f, $kind, elems($N, $f, $kind, None), $N),
+					"vecarrayz2" => {
+						let mut inp = compact($N);
+						inp.extend(elems(2 * $N, $f, $kind, None));
+						run::<Vec<[LedZ; 2]>>($ctx, "vecarrayz2", $N, $f, $kind, inp, 2 * $N)
+					},
 					"arrayopt" => run::<[Option<Led>; $N]>($ctx, "arrayopt", $N, $f, $kind, elems($N, $f, $kind, Some(&|_| vec![1u8])), $N),
 					"vecarray2" => {
 						// Vec<[Led; 2]> with N arrays: element index is linear
@@ -171,12 +224,17 @@ macro_rules! arr_shapes {
 
 pub fn run_vector(ctx: &mut Ctx, shape: &str, n: usize, f: i64, kind: &str) {
 	match shape {
-		"array" | "boxarray" | "rcarray" | "arrayofbox" | "arrayopt" | "vecarray2" | "arraytransp" | "boxarraytransp" =>
+		"array" | "boxarray" | "rcarray" | "arrayofbox" | "arrayopt" | "vecarray2" | "arraytransp" | "boxarraytransp"
+		| "arrayz" | "boxarrayz" | "arraybig" | "vecarrayz2" =>
 			arr_shapes!(ctx, shape, n, f, kind; 0, 1, 2, 3, 4, 7, 40),
 		"vec" => { let mut i = compact(n); i.extend(elems(n, f, kind, None)); run::<Vec<Led>>(ctx, shape, n, f, kind, i, n) },
 		"deque" => { let mut i = compact(n); i.extend(elems(n, f, kind, None)); run::<VecDeque<Led>>(ctx, shape, n, f, kind, i, n) },
 		"list" => { let mut i = compact(n); i.extend(elems(n, f, kind, None)); run::<LinkedList<Led>>(ctx, shape, n, f, kind, i, n) },
 		"map" => { let mut i = compact(n); i.extend(elems(n, f, kind, Some(&|j| vec![j as u8]))); run::<BTreeMap<u8, Led>>(ctx, shape, n, f, kind, i, n) },
+		"vecz" => { let mut i = compact(n); i.extend(elems(n, f, kind, None)); run::<Vec<LedZ>>(ctx, shape, n, f, kind, i, n) },
+		"vecbig" => { let mut i = compact(n); i.extend(elems(n, f, kind, None)); run::<Vec<LedBig>>(ctx, shape, n, f, kind, i, n) },
+		"dequebig" => { let mut i = compact(n); i.extend(elems(n, f, kind, None)); run::<VecDeque<LedBig>>(ctx, shape, n, f, kind, i, n) },
+		"listz" => { let mut i = compact(n); i.extend(elems(n, f, kind, None)); run::<LinkedList<LedZ>>(ctx, shape, n, f, kind, i, n) },
 		"vecbox" => { let mut i = compact(n); i.extend(elems(n, f, kind, None)); run::<Vec<Box<Led>>>(ctx, shape, n, f, kind, i, n) },
 		"vecvec" => {
 			// Vec<Vec<Led>>: n inner vectors of two elements each
@@ -192,6 +250,9 @@ pub fn run_vector(ctx: &mut Ctx, shape: &str, n: usize, f: i64, kind: &str) {
 		"tuple3" if n == 3 => run::<(Led, Led, Led)>(ctx, shape, 3, f, kind, elems(3, f, kind, None), 3),
 		"boxtuple" if n == 2 => run::<Box<(Led, Box<Led>)>>(ctx, shape, 2, f, kind, elems(2, f, kind, None), 2),
 		"nested" if n == 3 => run::<[[Led; 2]; 3]>(ctx, shape, 3, f, kind, elems(6, f, kind, None), 6),
+		"nestedz" if n == 3 => run::<[[LedZ; 2]; 3]>(ctx, shape, 3, f, kind, elems(6, f, kind, None), 6),
+		"arcarray3" if n == 3 => run::<Arc<[Led; 3]>>(ctx, shape, 3, f, kind, elems(3, f, kind, None), 3),
+		"optarcarr" if n == 3 => { let mut i = vec![1u8]; i.extend(elems(3, f, kind, None)); run::<Option<Arc<[Led; 3]>>>(ctx, shape, 3, f, kind, i, 3) },
 		#[cfg(feature = "derive")]
 		"struct3" if n == 3 => run::<LedPair>(ctx, shape, 3, f, kind, elems(3, f, kind, None), 3),
 		#[cfg(feature = "derive")]
